@@ -181,7 +181,9 @@ def _inject(ch):
         add_section(fault, ["ix", "zr", 0])
         add_section(twin, ["ix", "zr", 0])
     else:
-        opts = ["undefined-array", "undefined-name"]
+        opts = ["undefined-array", "undefined-name", "macro-array-number"]
+        if singles:
+            opts.append("macro-array-single")
         if letnames:
             opts += ["index-let", "alias-of-let"]
         if singles:
@@ -192,6 +194,13 @@ def _inject(ch):
             add_section(fault, ["ix", "nosuch", 0])
         elif via == "undefined-name":
             add_section(fault, ["id", "nosuch"])
+        elif via in ("macro-array-number", "macro-array-single"):
+            # the index is applied to a macro PARAMETER; what it is applied to is only known
+            # when the call is expanded
+            fault["macros"].append({"name": "mzz", "params": ["pz"], "body": ["seq", [["g", "X", [["ix", "pz", 0]]]]]})
+            arg = ["n", ch.pick([0, 1, 2.5])] if via == "macro-array-number" else ["id", ch.pick(singles)]
+            fault["body"].append(["sub", None, [["g", "mzz", [arg]]]])
+            stage = "macro"
         elif via == "index-let":
             add_section(fault, ["ix", ch.pick(letnames), 0])
         elif via == "alias-of-let":
@@ -470,6 +479,11 @@ def _prec_enum(tier):
             for call in ("one", "two", "float"):
                 for extra in (False, True):
                     yield {"imports": imports, "inject": inject, "call": call, "extra": extra}
+                    if inject and extra:
+                        # the injected set given as a list / tuple of definitions, and one that
+                        # leaves prepare_all / measure_all to the imports
+                        for form in ("list", "tuple", "dict-partial", "list-partial"):
+                            yield {"imports": imports, "inject": inject, "call": call, "extra": extra, "form": form}
 
 
 def precedence(case):
@@ -491,6 +505,15 @@ def precedence(case):
             "prepare_all": BusyGateDefinition("prepare_all"),
             "measure_all": BusyGateDefinition("measure_all"),
         }
+    form = case.get("form", "dict")
+    if inj is not None and form != "dict":
+        if form.endswith("partial"):
+            inj = {"GP": inj["GP"]}
+        if form.startswith("list"):
+            inj = list(inj.values())
+        elif form == "tuple":
+            inj = tuple(inj.values())
+    inj_gp = None if inj is None else (inj["GP"] if isinstance(inj, dict) else [g_ for g_ in inj if g_.name == "GP"][0])
     winner = "float" if case["inject"] else ("one" if case["imports"][-1] == "moda" else "two")
     st_, c = guard(parse, text, inject_pulses=inj, autoload_pulses=True, what="parse", allowed=None)
     expect_ok = case["call"] == winner
@@ -503,7 +526,7 @@ def precedence(case):
         want_n = {"one": 1, "two": 2, "float": 2}[winner]
         if len(gp.gate_def.parameters) != want_n or (winner == "float") != (not gp.gate_def.parameters[-1].classical is False):
             pass
-        if case["inject"] and gp.gate_def is not inj["GP"]:
+        if case["inject"] and gp.gate_def is not inj_gp:
             raise Violation("losing-definition-used", f"GP bound to {gp.gate_def!r}, expected the injected definition\n--- program:\n{text}", where=winner)
         if c.native_gates.get("GP") is not gp.gate_def:
             raise Violation("native-table-inconsistent", f"circuit.native_gates['GP'] is not the definition used\n--- program:\n{text}", where=winner)
@@ -513,13 +536,16 @@ def precedence(case):
 
     from jaqalpaq.emulator import run_jaqal_circuit
 
-    text2 = "\n".join(lines[: len(case["imports"])] + ["register q[2]", "prepare_all", "SP q[0]", "measure_all"]) + "\n"
+    # a subcircuit block names neither prepare_all nor measure_all: they come from the imports
+    # (or the injected set) all the same
+    text2 = "\n".join(lines[: len(case["imports"])] + ["register q[2]"] + (["subcircuit {", "SP q[0]", "}"] if case["extra"] else ["prepare_all", "SP q[0]", "measure_all"])) + "\n"
     st_, c2 = guard(parse, text2, inject_pulses=inj, autoload_pulses=True, what="parse", allowed=None)
     if st_ == "err":
         raise Violation("winning-definition-rejected", f"{c2}\n--- program:\n{text2}", where="same-signature")
     last = case["imports"][-1]
     want_def = importlib.import_module("vlib.pulses." + last).jaqal_gates.ALL_GATES["SP"]
-    sp = [s_ for s_ in c2.body.statements if s_.name == "SP"][0]
+    flat2 = [y for x in c2.body.statements for y in (x.statements if hasattr(x, "statements") else [x])]
+    sp = [s_ for s_ in flat2 if getattr(s_, "name", None) == "SP"][0]
     if sp.gate_def is not want_def or c2.native_gates.get("SP") is not want_def:
         raise Violation("losing-definition-used", f"SP is not the definition of the last import ({last})\n--- program:\n{text2}", where="same-signature")
     st_, r2 = guard(run_jaqal_circuit, c2, what="run_jaqal_circuit")
@@ -528,6 +554,20 @@ def precedence(case):
     p1 = float(r2.subcircuits[0].simulated_probability_by_int[1])
     if abs(p1 - (1.0 if last == "moda" else 0.0)) > 1e-9:
         raise Violation("losing-definition-used", f"SP emulated with the other module's unitary: P(q0=1) = {p1}, last import {last}\n--- program:\n{text2}", where="same-signature-emulated")
+    if inj is not None:
+        # every gate the program NAMES is injected; its subcircuit block still needs the
+        # imports' prepare_all / measure_all (when the injected set leaves them out)
+        text3 = "\n".join(lines[: len(case["imports"])] + ["register q[2]", "subcircuit {", "GP q[1] 0.5", "}"]) + "\n"
+        st_, c3 = guard(parse, text3, inject_pulses=inj, autoload_pulses=True, what="parse", allowed=None)
+        if st_ == "err":
+            raise Violation("winning-definition-rejected", f"{c3}\n--- program:\n{text3}", where="injected-only-calls")
+        st_, r3 = guard(run_jaqal_circuit, c3, what="run_jaqal_circuit")
+        if st_ == "err":
+            raise Violation("winning-definition-rejected", f"run: {r3} (injected set form {form})\n--- program:\n{text3}", where="injected-only-calls")
+        for nm in ("prepare_all", "measure_all"):
+            wantd = (inj[nm] if isinstance(inj, dict) else [g_ for g_ in inj if g_.name == nm][0]) if form in ("dict", "list", "tuple") else importlib.import_module("vlib.pulses." + last).jaqal_gates.ALL_GATES[nm]
+            if c3.native_gates.get(nm) is not wantd:
+                raise Violation("losing-definition-used", f"{nm} of the circuit is not the {'injected' if form in ('dict', 'list', 'tuple') else 'last import (' + last + ')'} definition\n--- program:\n{text3}", where="injected-only-calls")
     return {"nontrivial": True, "classes": ["winner:" + winner, "imports:%d" % len(case["imports"])], "key": repr(case), "sample": {"text": text, "injected": case["inject"], "accepted": expect_ok}}
 
 
